@@ -99,3 +99,26 @@ Theorem C14_async_methods_source :
   forallb (fun x => snd x) PollGen.async_methods = true /\ PollGen.async_clean = true /\ 19 <= length PollGen.async_methods.
 Proof. vm_compute. repeat split; repeat constructor. Qed.
 Print Assumptions C14_async_methods_source.
+
+(** a poll during whose waker registration another stage acts ([Async.poll_inj], the "second attempt succeeds" branch of [poll]):
+    against the Spec it is the injected operation (if that step performed one) followed by the polled operation (if the poll
+    resolved) - same answer, same ledger, related states; the refused first attempt took, dropped, duplicated and stored nothing *)
+Require MRB.Proofs.AsyncInj.
+Theorem C14_poll_with_injected_step_refines :
+  forall (s : Async.astate) (k : Types.stage) (o : Types.op) (d : Async.aop),
+    Async.refused (fst (snd (Seq.step (Async.base s) o))) = true ->
+    forall a : Pipe.pipe, Rel.Rel (Async.base s) a -> Async.future_of o = Some k ->
+    let s1 := Async.register k (Async.set_base (fst (Seq.step (Async.base s) o)) s) in
+    let g := AsyncRefine.performed s1 d in
+    (forall f, g = Some f -> Pipe.ok_op a f = true) ->
+    let a1 := match g with Some f => fst (Pipe.sstep a f) | None => a end in
+    let l1 := match g with Some f => snd (snd (Pipe.sstep a f)) | None => nil end in
+    let r := Async.poll_inj k o d s in
+    let x := fst (snd (fst r)) in
+    Async.refused x = false /\
+    (AsyncRefine.visible x = true ->
+       Rel.Rel (Async.base (fst (fst r))) (fst (Pipe.sstep a1 o)) /\ x = fst (snd (Pipe.sstep a1 o)) /\
+       snd (snd (fst r)) = (l1 ++ snd (snd (Pipe.sstep a1 o)))%list) /\
+    (AsyncRefine.visible x = false -> Rel.Rel (Async.base (fst (fst r))) a1 /\ snd (snd (fst r)) = l1).
+Proof. intros s k o d H a R F. cbv zeta. intros OK. exact (AsyncInj.poll_inj_refines s k o d H a R F OK). Qed.
+Print Assumptions C14_poll_with_injected_step_refines.
